@@ -211,7 +211,10 @@ impl Prop for C13 {
         }
         ctx.sub();
         let got: Result<Result<Decimal, DecimalError>, String> =
-            if is32 {
+            if bits % 8 != 3 {
+                // (the other entry points are exercised on every 8th pattern: cost of the 2^32 enumeration)
+                if is32 { catch(|| Decimal::try_from(f32::from_bits(bits as u32))) } else { catch(|| Decimal::try_from(f64::from_bits(bits))) }
+            } else if is32 {
                 catch(|| {
                     let f = f32::from_bits(bits as u32);
                     let a = Decimal::try_from(f);
